@@ -44,8 +44,10 @@ def compile_script(script_path: str) -> CompilerOutput:
     if spec is None or spec.loader is None:
         raise ImportError(f"cannot load program {script_path}")
     script = importlib.util.module_from_spec(spec)
-    spec.loader.exec_module(script)
-    timer.stop("nada_dsl.compile.compile.__import__")
+    try:
+        spec.loader.exec_module(script)
+    finally:
+        timer.stop("nada_dsl.compile.compile.__import__")
 
     try:
         main = getattr(script, "nada_main")
